@@ -156,7 +156,7 @@ def run(ctx):
     n10 = check_closers(ctx, ctx.program("MAX"), "", "C01.P10.counter-decrement-follows-its-increment",
                         only=(_C + "decr_depth", "minijinja::vm::state::BlockStack::pop"),
                         why=": the unsigned counter underflows (a panic with overflow checks, a wrapped recursion depth without)")
-    ctx.floor("C01.P10 decrement sites of interpreter counters", n10, 4)
+    ctx.floor("C01.P10 decrement sites of interpreter counters", n10, 1)
     # P11: a loop-control jump cannot leave the evaluation it was compiled in.  Bodies that are evaluated separately
     # (macro and call-block bodies: own frame; block bodies: own generator) are parsed with `in_loop` reset, so
     # `break` / `continue` in them is a syntax error rather than a jump to the enclosing loop's PopLoopFrame, which
